@@ -7,6 +7,7 @@
 (*   a        results of compile()+eval of to_python_ast(e)     (full only)*)
 (*   fn       results of exec'ing to_evaluatable_python_function (full)    *)
 (*   imp      ASTToPymbolic(to_python_ast(e)) as a tree         (full only)*)
+(*   imps     ASTToPymbolic(ast.parse(compile-path source))     (full only)*)
 (* Every value is judged against Eval(e, env); the parameter order against *)
 (* "listed first, then the remaining free variables in name order".        *)
 (***************************************************************************)
@@ -58,6 +59,27 @@ ImpVerdict(e, p) ==
     ELSE IF p.r = "err" THEN [v |-> "translation-raised", env |-> 0]
     ELSE [v |-> "SKIP", env |-> 0]
 
+\* the importer applied to Python's own AST of the generated program (source of the compile
+\* path): node classes the importer documents as unsupported (and / or, chained comparisons,
+\* anything it answers with NotImplementedError) are out of its fragment
+\* What the AST means is what Python computes from that source: the values the compiled
+\* callable returned (rec.c, judged against Eval(e) on its own path) - so a printer defect is
+\* charged to the compile path only, and the importer is judged on the AST it was given.
+ImpSrcVerdict(rec) ==
+    LET p == rec.imps IN
+    IF p.r = "ok" /\ rec.c.r = "vals" THEN
+        LET vs == [i \in 1..Len(Envs) |->
+                      JudgeVal(rec.c.vals[i], Eval(p.e, Envs[i]), p.e, Envs[i])]
+            bad(i) == vs[i] \notin {"OK", "SKIP"}
+        IN IF \E i \in 1..Len(vs) : bad(i)
+           THEN LET i == CHOOSE i \in 1..Len(vs) : bad(i) /\ \A j \in 1..(i - 1) : ~bad(j)
+                IN [v |-> vs[i], env |-> i]
+           ELSE IF \A i \in 1..Len(vs) : vs[i] = "SKIP" THEN [v |-> "SKIP", env |-> 0]
+           ELSE [v |-> "OK", env |-> 0]
+    ELSE IF p.r = "err" /\ p.v.e = "NotImplementedError" THEN [v |-> "SKIP", env |-> 0]
+    ELSE IF p.r = "err" THEN [v |-> "translation-raised", env |-> 0]
+    ELSE [v |-> "SKIP", env |-> 0]
+
 Verdicts(rec) ==
     LET base == << [path |-> "compile", v |-> PathVerdict(rec.e, rec.c, TRUE)],
                    [path |-> "compile-pickled", v |-> PathVerdict(rec.e, rec.cp, TRUE)],
@@ -68,7 +90,8 @@ Verdicts(rec) ==
         more == IF ~rec.full THEN << >> ELSE
                 << [path |-> "to-ast", v |-> PathVerdict(rec.e, rec.a, ToAstSupports(rec.e))],
                    [path |-> "to-function", v |-> PathVerdict(rec.e, rec.fn, ToAstSupports(rec.e))],
-                   [path |-> "from-ast", v |-> ImpVerdict(rec.e, rec.imp)] >>
+                   [path |-> "from-ast", v |-> ImpVerdict(rec.e, rec.imp)],
+                   [path |-> "from-ast-of-source", v |-> ImpSrcVerdict(rec)] >>
     IN base \o more
 
 Report ==
